@@ -44,7 +44,7 @@ Proof. repeat split; reflexivity. Qed.
 
 (* (b) the naming function is the documented naming: rename overrides; the Table variant is the
    table name (the type's rename, else snake_case of the type name); otherwise snake_case of the
-   variant name. as_str agrees with it. *)
+   variant name; a raw identifier counts without its r# prefix. as_str agrees with it. *)
 Theorem C19_derived_name_spec :
   forall (menv : method_env) (ident : str) (attrs : list attr_meta) (vs : list variant) (i : nat)
          (var : variant) (inner : option (tydef * value)) (crename vrename : option str),
@@ -63,9 +63,11 @@ Check (eq_refl : spec_variant_name =
     match variant_rename with
     | Some r => r
     | None => if str_eqb variant_name (K "Table")
-              then match type_rename with Some r => r | None => snake_case type_name end
-              else snake_case variant_name
+              then match type_rename with Some r => r | None => snake_case (unraw type_name) end
+              else snake_case (unraw variant_name)
     end).
+(* unraw drops the raw prefix (114 35 = r#) of an identifier; the name of r#type is type *)
+Check (eq_refl : unraw = fun ident => match ident with 114 :: 35 :: t => t | _ => ident end).
 
 Example C19_derived_name_instance :
   let glyph := DEnum (K "GlyphToken") [MIdenList [NRename (K "glyphs")]]
@@ -75,8 +77,14 @@ Example C19_derived_name_instance :
   let plain := DEnum (K "FontSize") [] [ {| v_ident := K "Table"; v_fields := FUnit; v_attrs := [] |} ] in
   map (unquoted (fun _ _ => []) glyph) [VVariant 0 None; VVariant 1 None; VVariant 2 None]
     = [Some (K "glyphs"); Some (K "http_server2_go"); Some (K "x y")]
-  /\ unquoted (fun _ _ => []) plain (VVariant 0 None) = Some (K "font_size").
-Proof. split; reflexivity. Qed.
+  /\ unquoted (fun _ _ => []) plain (VVariant 0 None) = Some (K "font_size")
+  /\ unquoted (fun _ _ => []) (DEnum (K "r#Struct") [] [ {| v_ident := K "r#Type"; v_fields := FUnit; v_attrs := [] |};
+                                                          {| v_ident := K "Table"; v_fields := FUnit; v_attrs := [] |} ])
+               (VVariant 0 None) = Some (K "type")
+  /\ unquoted (fun _ _ => []) (DEnum (K "r#Struct") [] [ {| v_ident := K "r#Type"; v_fields := FUnit; v_attrs := [] |};
+                                                          {| v_ident := K "Table"; v_fields := FUnit; v_attrs := [] |} ])
+               (VVariant 1 None) = Some (K "struct").
+Proof. repeat split; reflexivity. Qed.
 
 Theorem C19_method_and_flatten_names :
   (forall menv ident attrs vs i var inner crename m,
@@ -95,17 +103,18 @@ Print Assumptions C19_method_and_flatten_names.
 Theorem C19_unit_struct_name :
   forall (menv : method_env) (ident : str) (attrs : list attr_meta) (crename : option str),
     parsed_attr attrs = Some (option_map Rename crename) ->
-    Forall (fun c => c <> 123 /\ c <> 125) (spec_table_name ident crename) ->
     unquoted menv (DUnit ident attrs) VUnit = Some (spec_table_name ident crename)
     /\ as_str menv (DUnit ident attrs) VUnit = Some (spec_table_name ident crename).
 Proof. exact derived_unit_struct_name. Qed.
 Print Assumptions C19_unit_struct_name.
 
-(* the brace hypothesis is needed: the unit-struct rename is used as a format string (candidate F11) *)
+(* a rename with braces is written verbatim (it used to be the format string of write!: F11a, fixed) *)
 Example C19_unit_struct_brace_instance :
-  unquoted (fun _ _ => []) (DUnit (K "B") [MIdenEq (K "b{{x}}")]) VUnit = Some (K "b{x}")
+  unquoted (fun _ _ => []) (DUnit (K "B") [MIdenEq (K "b{{x}}")]) VUnit = Some (K "b{{x}}")
   /\ as_str (fun _ _ => []) (DUnit (K "B") [MIdenEq (K "b{{x}}")]) VUnit = Some (K "b{{x}}")
-  /\ unquoted (fun _ _ => []) (DUnit (K "B") [MIdenEq (K "{}")]) VUnit = None.
+  /\ unquoted (fun _ _ => []) (DUnit (K "B") [MIdenEq (K "{}")]) VUnit = Some (K "{}")
+  /\ derived_prepare (fun _ _ => []) 34 (DUnit (K "B") [MIdenEq (K "{}")]) VUnit = Some (K """{}""")
+  /\ unquoted (fun _ _ => []) (DUnit (K "r#Struct") []) VUnit = Some (K "struct").
 Proof. repeat split; reflexivity. Qed.
 
 Theorem C19_first_attribute_counts :
@@ -119,10 +128,11 @@ Print Assumptions C19_first_attribute_counts.
 Theorem C19_enum_def_naming :
   forall (a : enum_def_args) (ident : str) (fs : list str),
     enum_def_name a ident = or_default (ed_prefix a) [] ++ unraw ident ++ or_default (ed_suffix a) (K "Iden")
-    /\ enum_def_variants fs = K "Table" :: map pascal_case fs
+    /\ enum_def_variants fs = K "Table" :: map (fun f => pascal_case (unraw f)) fs
     /\ (forall menv inner, unquoted menv (DEnumDef a ident fs) (VVariant 0 inner)
-          = Some (match ed_table_name a with Some t => t | None => snake_case ident end))
-    /\ (forall menv inner k, unquoted menv (DEnumDef a ident fs) (VVariant (S k) inner) = nth_error fs k)
+          = Some (match ed_table_name a with Some t => t | None => snake_case (unraw ident) end))
+    /\ (forall menv inner k, unquoted menv (DEnumDef a ident fs) (VVariant (S k) inner)
+          = option_map unraw (nth_error fs k))
     /\ (forall menv v, as_str menv (DEnumDef a ident fs) v = unquoted menv (DEnumDef a ident fs) v).
 Proof. exact enum_def_naming. Qed.
 Print Assumptions C19_enum_def_naming.
@@ -130,9 +140,12 @@ Print Assumptions C19_enum_def_naming.
 Example C19_enum_def_instance :
   let a := {| ed_prefix := Some (K "P"); ed_suffix := None; ed_table_name := None |} in
   enum_def_name a (K "HTTPThing") = K "PHTTPThingIden"
-  /\ enum_def_variants [K "font_size"; K "http2Server"; K "_x"] = [K "Table"; K "FontSize"; K "Http2Server"; K "X"]
+  /\ enum_def_variants [K "font_size"; K "http2Server"; K "_x"; K "r#type"]
+     = [K "Table"; K "FontSize"; K "Http2Server"; K "X"; K "Type"]
   /\ unquoted (fun _ _ => []) (DEnumDef a (K "HTTPThing") [K "font_size"]) (VVariant 0 None) = Some (K "http_thing")
-  /\ unquoted (fun _ _ => []) (DEnumDef a (K "HTTPThing") [K "font_size"]) (VVariant 1 None) = Some (K "font_size").
+  /\ unquoted (fun _ _ => []) (DEnumDef a (K "HTTPThing") [K "font_size"]) (VVariant 1 None) = Some (K "font_size")
+  /\ unquoted (fun _ _ => []) (DEnumDef a (K "r#Struct") [K "r#type"]) (VVariant 1 None) = Some (K "type")
+  /\ unquoted (fun _ _ => []) (DEnumDef a (K "r#Struct") [K "r#type"]) (VVariant 0 None) = Some (K "struct").
 Proof. repeat split; reflexivity. Qed.
 
 (* (c) facts about snake_case that make (b) more than a restatement; all for every input string *)
@@ -208,8 +221,9 @@ Proof. exact snake_case_valid_iden_iff. Qed.
 Print Assumptions C19_snake_names_take_fast_path.
 
 Theorem C19_unrenamed_variant_is_valid :
-  forall (table_name ident : str) (c : N) (t : str),
-    ident = c :: t -> is_ascii_alphabetic c = true -> str_eqb ident (K "Table") = false ->
+  forall (table_name ident : str),
+    str_eqb ident (K "Table") = false ->
+    match filter is_ascii_alphanumeric (unraw ident) with c :: _ => is_ascii_alphabetic c = true | [] => True end ->
     variant_valid table_name ident None = true.
 Proof. exact unrenamed_variant_valid. Qed.
 Print Assumptions C19_unrenamed_variant_is_valid.
@@ -217,5 +231,6 @@ Print Assumptions C19_unrenamed_variant_is_valid.
 Example C19_fast_path_names_instance :
   must_be_valid_iden (snake_case (K "HTTPServer2Go")) = true
   /\ variant_valid [] (K "FontSize") None = true
+  /\ variant_valid [] (K "r#Type") None = true
   /\ must_be_valid_iden (snake_case (K "_1")) = false.
 Proof. repeat split; reflexivity. Qed.
